@@ -6,7 +6,7 @@ BASELINE = "cd /repo && cargo nextest run --workspace --no-fail-fast --tool-conf
 
 # id -> (category, technique, level text, level note, design_ref)   (None = not yet claimed, with reason)
 CHECKS = {
- "C01": ("exploration", "differential run-time monitor: real engine vs independent reference evaluator over generated programs",
+ "C01": ("exploration", "differential run-time monitor: real engine vs independent reference evaluator over generated programs, incl. the handler's bound-query form",
          "held on every generated (program, EDB) of the run: the real IQLEngine's answer equals an independent naive stratified evaluator's, tuple for tuple; generated fragment and counts are in the evidence",
          "trusted: the reference evaluator (harness/src/refdl.rs); fragment: ints/strings, joins, negation, self+mutual recursion, comparisons, + - *, aggregates", "3/C01"),
  "C02": ("exploration", "differential run-time monitor: all 32 optimizer configurations on the same generated program",
@@ -80,13 +80,13 @@ CHECKS = {
          "trusted: reference model; blockers read from the structured WhyNot nodes of the reply", "3/C23"),
  "C24": ("exploration", "model-based run-time monitor: history model + brute force with exact metric distances checked after every index operation",
          "held on every search of the run apart from the listed known findings (the approximate graph misses live vectors even when ef >= live): <= k distinct live ids, non-decreasing exact distances; the exact-k-nearest clause is a known finding",
-         "trusted: the crate's vector_ops distances (C26), the history model", "3/C24"),
+         "trusted: the crate's vector_ops distances (C26), the history model; thorough tier additionally runs 200 reduced index histories under AddressSanitizer (the index holds the crate's only unsafe block; hnsw_rs cannot run under Miri)", "3/C24"),
  "C25": ("exploration", "model-based run-time monitor: index state (ids via exhaustive search, latest vectors, len, dimension, tombstone count, config) vs history model after every operation incl. save/load",
          "held on every history of the run apart from the listed known finding (exhaustive search does not reach every live id): no deleted/unknown id visible, latest vectors stored, len/dimension/tombstone_count/config as implied, across save/load",
-         "trusted: the history model incl. the documented 30% auto-compaction policy", "3/C25"),
+         "trusted: the history model incl. the documented 30% auto-compaction policy; thorough tier additionally runs 200 reduced index histories under AddressSanitizer", "3/C25"),
  "C26": ("exploration", "law-checking run-time monitor over random vectors, plus LSH bucket determinism across hyperplane-cache states and 4 concurrent threads",
          "held on every generated input of the run: distance symmetry/non-negativity/zero-on-self/cosine range, quantisation error within one step, LSH buckets equal across cold/warm/evicted/regrown/concurrent cache states, probe sequences start at the bucket without repeats (lsh_probes monotone in Hamming distance), temporal predicate laws",
-         "trusted: the cold-cache bucket as reference; Miri/TSan lanes are not part of this check", "3/C26"),
+         "trusted: the cold-cache bucket as reference; thorough tier additionally runs a reduced LSH-cache workload (3 threads, cache clear/resize) under Miri (UB and data-race detection); a Miri run that cannot be built or started is inconclusive", "3/C26"),
  "C09": ("exploration", "round-trip and differential run-time monitor: print/parse round trip of generated rule texts; the same rule through engine / inline / session / persistent / restarted paths",
          "held on every generated rule of the run: the printed rule parses back to the same AST; the answers through the inline-session, WebSocket-session, persistent and restarted-persistent paths equal the engine's answer on the original text (values with kind)",
          "trusted: Debug form of ast::Rule for AST equality; the engine on the original text as reference", "3/C09"),
@@ -108,10 +108,10 @@ CHECKS = {
  "C19": ("exploration", "model-based run-time monitor of consistent reads after every write + scheduler-driven reader/writer interleavings with begun/acknowledged stamps",
          "held on every history and schedule of the run: read_relation_consistent equals the set model at quiescent points; under concurrency every read succeeds, contains all writes acknowledged before it began and nothing unwritten or deleted-before",
          "trusted: set model; seeded random schedules over the insert/delete hook points", "3/C19"),
- "C20": ("exploration", "history checker over scheduler-driven interleavings: every read must be a whole-batch prefix state inside its [acknowledged-at-call, begun-at-return] window; writers read their own writes",
+ "C20": ("exploration", "history checker over scheduler-driven interleavings (plus a free-running lane with large batches): every read must be a whole-batch prefix state inside its [acknowledged-at-call, begun-at-return] window; writers read their own writes",
          "held on every read of every explored schedule of the run: answers consist of whole batches, equal the writer's state after j operations with acknowledged-at-call <= j <= begun-at-return, and own reads equal the own state",
          "trusted: boundary stamps taken by the reading thread; one writer per relation; seeded random schedules", "3/C20"),
- "C10": ("exploration", "history checker over concurrent sessions + persistent writer on one Handler: every session answer must be the model answer for some persistent prefix inside its call/return window plus the session's own facts and rules; leak checks afterwards",
+ "C10": ("exploration", "history checker over concurrent sessions + persistent writer on one Handler: every session answer must be the model answer for the persistent state after some admissible number of writer requests (inserts and deletes) inside its call/return window plus the session's own facts and rules; leak checks afterwards",
          "held on every query of every history of the run: answers equal the model for an admissible prefix; no session fact/rule of another session is visible; persistent facts and rules are untouched; request-local facts/rules leave nothing behind",
          "trusted: boundary stamps taken by the session thread; free-running threads with random pauses (handler work runs on tokio's blocking pool, outside the scheduler)", "3/C10"),
 }
